@@ -144,6 +144,17 @@ func (W *vWorld) agree() bool {
 // symbolic component values are written through the real accessors
 func (W *vWorld) havocValues(i int) {
 	m := &W.e[i]
+	if vConcreteValues { // determinism runs: the same concrete values in every run
+		if m.has[cA] {
+			m.pos = vPos{uint32(i), 7}
+			*W.getPos(m.h) = m.pos
+		}
+		if m.has[cB] {
+			m.vel = vVel{uint32(i) + 100}
+			*W.getVel(m.h) = m.vel
+		}
+		return
+	}
 	if m.has[cA] {
 		m.pos = vPos{vU32("pos.x"), vU32("pos.y")}
 		*W.getPos(m.h) = m.pos
